@@ -60,6 +60,12 @@ func genCase(t *rapid.T) Case {
 	for i := 0; i < nn; i++ {
 		c.Fields = append(c.Fields, vh.HeaderField{Name: "X-Noise-" + rapid.StringMatching(`[a-z]{1,5}`).Draw(t, "nname"), Value: rapid.StringMatching(`[a-z0-9]{0,8}`).Draw(t, "nval")})
 	}
+	// a Connection field of the client, nominating field names as hop-by-hop (RFC 9110 7.6.1)
+	if rapid.IntRange(0, 3).Draw(t, "connection") == 0 {
+		toks := rapid.SliceOfNDistinct(rapid.SampledFrom([]string{"X-Inverting-Proxy-User-ID", "x-inverting-proxy-user-id", "Authorization", "keep-alive", "X-Noise-a", "x-unknown"}),
+			1, 3, func(s string) string { return s }).Draw(t, "connectionTokens")
+		c.Fields = append(c.Fields, vh.HeaderField{Name: rapid.SampledFrom([]string{"Connection", "connection"}).Draw(t, "connectionName"), Value: strings.Join(toks, ", ")})
+	}
 	c.Fields = rapid.Permutation(c.Fields).Draw(t, "order")
 	return c
 }
@@ -175,6 +181,21 @@ func runCase(t vh.TB, c *Case) vh.Outcome {
 	w := getWorld()
 	o := vh.Outcome{}
 	var clientIDs, clientAuth []string
+	nominated := map[string]bool{} // field names the client's Connection field declares hop-by-hop
+	for _, f := range c.Fields {
+		if strings.EqualFold(f.Name, "Connection") {
+			for _, tok := range strings.Split(f.Value, ",") {
+				nominated[strings.ToLower(strings.TrimSpace(tok))] = true
+			}
+		}
+	}
+	if nominated["x-inverting-proxy-user-id"] {
+		o.NonTrivial = true
+		o.Classes = append(o.Classes, "identity-field-nominated-in-connection")
+	}
+	if nominated["authorization"] {
+		o.Classes = append(o.Classes, "authorization-nominated-in-connection")
+	}
 	for _, f := range c.Fields {
 		if strings.EqualFold(f.Name, "X-Inverting-Proxy-User-ID") {
 			clientIDs = append(clientIDs, f.Value)
@@ -273,7 +294,7 @@ func runCase(t vh.TB, c *Case) vh.Outcome {
 			o.Err = fmt.Errorf("with --forward-user-id the backend's %s carried X-Inverting-Proxy-User-ID values %q; expected exactly the asserted identity %q (client supplied %q)", where, gotIDs, c.Asserted, clientIDs)
 			return o
 		}
-	} else if !c.Shim && strings.Join(gotIDs, "\x00") != strings.Join(clientIDs, "\x00") {
+	} else if !c.Shim && !nominated["x-inverting-proxy-user-id"] && strings.Join(gotIDs, "\x00") != strings.Join(clientIDs, "\x00") {
 		// (plain requests only: this is property C02's pass-through; nothing is promised for the handshake)
 		o.Err = fmt.Errorf("without --forward-user-id the client's own X-Inverting-Proxy-User-ID values %q arrived as %q", clientIDs, gotIDs)
 		return o
@@ -284,7 +305,7 @@ func runCase(t vh.TB, c *Case) vh.Outcome {
 			o.Err = fmt.Errorf("with --strip-credentials the backend's %s carried Authorization values %q", where, gotAuth)
 			return o
 		}
-	} else if !c.Shim && strings.Join(gotAuth, "\x00") != strings.Join(clientAuth, "\x00") {
+	} else if !c.Shim && !nominated["authorization"] && strings.Join(gotAuth, "\x00") != strings.Join(clientAuth, "\x00") {
 		o.Err = fmt.Errorf("without --strip-credentials the client's Authorization values %q arrived as %q", clientAuth, gotAuth)
 		return o
 	}
